@@ -9,13 +9,68 @@ sys.path.insert(0, ROOT)
 from vlib import checks  # noqa: E402
 
 T = "explicit TLA+ specification checked with TLC; traces recorded from the C library validated against it (trace validation)"
+TV = "explicit TLA+ specification checked with TLC + trace validation of the C library against it"
 META = {
     "C01": ("model_checking", "6/C01",
-            "TLC checks the packing lemmas at full size (165 unit seeds, all 13 530 pairs: Unwords(Words(s)) = s, linearity); every encode/decode/decode_explicit call recorded from the C library for boundary and random seeds x languages x coins is judged by TLC against Phrase.tla/SeedCodec.tla, including forced Simplified/Traditional Chinese ambiguity and the longest Korean/Japanese phrases",
-            "real NFC/NFKD by utf8proc as the injected dependency (its NFC output is cross-checked against golden Unicode data); golden word lists = pinned release (C07 re-establishes this)", T),
+            "TLC checks the packing lemmas at full size (165 unit seeds, all 13 530 pairs, every birthday and feature value: Unwords(Words(s)) = s, linearity); every encode / decode / decode_explicit call recorded from the C library for boundary and random seeds x languages x coins is judged by TLC against Phrase.tla / SeedCodec.tla, including forced Simplified/Traditional Chinese ambiguity and the longest Korean/Japanese phrases",
+            "real NFC/NFKD by utf8proc as injected dependency (NFC output cross-checked against golden Unicode data from Python unicodedata); golden word lists = pinned release (check C07)", TV),
+    "C02": ("model_checking", "6/C02",
+            "TLC enumerates the whole field: MulX bijective and GF(2)-linear on all 2048 elements, d*x^i != 0 for all 16 x 2047 cases (single substitution), d*(x^i+x^j) != 0 for all 120 x 2047 cases (swap), uniqueness of the check word; the implementation's gf_elem_mul2 (all 2048) and gf_poly_eval are compared with the specification by TLC, and substitutions, swaps, erasure recovery and altered check values go through the public API",
+            "code distance argument relies on linearity of PolyEval, itself TLC-checked; gf.h inline functions observed directly and through the API", TV + " (exhaustive field enumeration)"),
+    "C03": ("model_checking", "6/C03",
+            "the published layout is stated declaratively (SeedCodec.Words, lemma family 'layout' compares it with the README table bit by bit); every phrase the library emits for the 164 holdable unit seeds (plain and encrypted), sampled/all pairs, coins and languages is compared byte for byte by TLC, as are the NFC input and output",
+            "golden lists and golden composed forms; separator and compose flags from golden metadata", TV),
+    "C04": ("model_checking", "6/C04",
+            "every argument of every injected PBKDF2 call (password bytes and length, salt bytes and length, iteration count, key pointer identity, key length) and the key buffer afterwards are conditions of the contract evaluated by TLC; injectivity of the salt/password in each field is a TLC lemma family (kdf); same-seed-by-any-path follows from the abstract heap",
+            "the KDF itself is an injected dependency; the stub returns scheduled bytes", TV),
+    "C05": ("model_checking", "6/C05",
+            "TLC: MulX(d) != 0 for all 2047 coin differences (quick) and Valid(ApplyCoin(ApplyCoin(w,a),b)) <=> a=b for all 2048 x 2048 pairs (thorough); traces: full rows and columns of coin pairs through encode / decode_explicit, judged by TLC",
+            "linearity of the code (TLC-checked)", TV),
+    "C06": ("model_checking", "6/C06",
+            "TLC decides LoadStatus/StoreImage on the field-wise exhaustive neighbourhood of valid images (all values of every non-secret field, ~265 000 buffers: acceptance implies store reproduces the buffer, precedence FORMAT > CHECKSUM > UNSUPPORTED); the same buffer families plus constructed non-canonical-but-check-consistent images, multi-bit mutations and random buffers are loaded by the C library and every status and stored image judged by TLC",
+            "2^256 buffers explored by structured enumeration, not exhaustively", TV),
+    "C07": ("model_checking", "6/C07",
+            "TLC checks every list-level clause on all 10 x 2048 golden words (distinct, own index and no other, strictly sorted under the search order for both char signednesses, unique 4-letter heads, no word of >= 4 letters a prefix of another, every abbreviation unambiguous); the code's word tables, registry, names and flags are compared with golden exhaustively (direct table read, every word through the search, every index at every phrase position through encode/decode, the debug self-test with the real normaliser)",
+            "golden snapshot is the publication at the pinned release; clause 'no word is a prefix of another' read as stated in DESIGN.md (literal reading false for BIP-39 en/es 3-letter words)", TV + " (exhaustive)"),
+    "C08": ("model_checking", "6/C08",
+            "the acceptance rule is Wordlists.Accepts; TLC judges the outcome of the library's word search for every character-prefix length x every subset of accents kept/dropped of every word (all accented words, sample/all of the others), negative tokens, and whole phrases with independent NFC/NFD variants per position through the real normaliser",
+            "internal search entry point polyseed_lang_find_word observed directly and through both decoders", TV),
+    "C09": ("model_checking", "6/C09",
+            "TLC proves on the specification that automatic decoding is determined by the ten explicit outcomes exactly as stated (TheoremsSplit: all strings over {a,b,space} up to a length for the splitter; 4096 token sequences over real lists for the relation and precedence); every structured string is given to polyseed_decode and to polyseed_decode_explicit for all ten languages and all eleven outcomes are judged by TLC",
+            "relation checked per call against the specification for which it is a theorem", TV),
+    "C10": ("model_checking", "6/C10",
+            "TLC: Supported matches the statement for all 32 x 8 (features, mask) pairs, enable/create/query lemmas; PolyseedMC explores all enabling sequences within its bound (NewSeedsAreSupported, NoReservedBit, OnlyEnableChangesMask); traces: all 8 masks (with high argument bits) x all 32 feature values x load / decode / decode_explicit with constructed vectors, create with arguments 0..15 and beyond, queries, round trips",
+            "reserved-feature vectors are constructed (the library cannot produce them)", TV + " (exhaustive over masks x features x entry points)"),
+    "C11": ("model_checking", "6/C11",
+            "TLC decides the quantiser on 64-bit limb arithmetic at both sides of all 1024 month boundaries, the range ends and special clocks; the library is run with the injected (and the libc) clock at those 3 089 values plus random ones and every reported birthday, also after encode/decode, store/load and crypt, is judged by TLC",
+            "monotone piecewise-constant quantiser: boundaries decide all 2^64 values", TV + " (exhaustive over boundaries)"),
+    "C12": ("model_checking", "6/C12",
+            "TLC: CryptApply is an involution preserving birthday/user features and the 150-bit bound for all 256 x 256 (secret byte, mask byte) pairs and all flag/birthday values; PolyseedMC keeps every seed canonical across crypt; traces: repeated applications with biased masks (all values of the dropped bits), equal/different passwords in NFC/NFD spelling, every KDF argument judged, seeds stored/loaded/encoded/decoded after each application",
+            "utf8proc NFKD agrees with golden Unicode data on the password pool (environment assumption checked per run)", TV),
+    "C13": ("model_checking", "6/C13",
+            "Polyseed.tla is the abstract model; PolyseedMC checks its invariants and action properties on all behaviours within the bound; behaviours of the model are replayed through the C library (spec -> code) and random walks over the whole API with up to six live seeds are validated event by event with the projection of ALL live seeds (code -> spec)",
+            "bounded pools (spec/PolyseedMC*.cfg); walks sample beyond", TV + " + replay of TLC-generated behaviours"),
+    "C14": ("exploration", "6/C14",
+            "hostile phrases, passwords and buffers (length classes around the buffer size, token-count classes, invalid UTF-8, mutations, random bytes) are executed under ASan+UBSan with assertions and in the release build with guard pages and a watchdog; TLC supplies the status oracle for every call, the ledger and input-integrity conditions; a sanitizer report, signal or hang is an event no specification action accepts",
+            "memory safety / UB verdict is the sanitizers' on the inputs explored", "trace validation with the TLA+ specification as oracle; ASan/UBSan/guard pages as observers"),
+    "C15": ("fault_enumeration", "6/C15",
+            "allocation failure is an independently enabled disjunct of every allocation request in PolyseedMC (all fault choices within the bound; Ledger, NoOrphanBlocks, FailuresChangeNothing); on the code every constructor x outcome class is run with the request succeeding and failing, model behaviours with NULL choices are replayed, walks run under random failure schedules, with the injected allocator and with libc malloc/free",
+            "failure schedule = which allocation requests of a call fail; never-zero fresh memory, poisoned freed memory", TV + " with enumerated allocation faults"),
     "C16": ("model_checking", "6/C16",
-            "the wipe protocol (freed block zero and wiped through the injected memzero before free; no residue of secret, indices, phrase text, password or mask on the dead call stack) is a set of conditions of the contract Polyseed.tla evaluated by TLC on traces of every API function on every exit path, in builds at -O0/-O2 (-O3 and assert-enabled in the thorough tier)",
-            "residue = what persists in memory after return on a dedicated pre-patterned stack; registers and copies overwritten before return are invisible; the scan is an observer whose report TLC judges", T + "; dead-stack scan as observer"),
+            "the wipe protocol (freed block zero and wiped through the injected memzero before free; no residue of secret, indices, phrase text, password or mask on the dead call stack) is a set of conditions of the contract evaluated by TLC on traces of every API function on every exit path, in builds at -O0/-O2 (-O3 and assert-enabled in the thorough tier)",
+            "residue = what persists in memory after return on a dedicated pre-patterned stack; registers and copies overwritten before return are invisible", TV + "; dead-stack scan as observer"),
+    "C17": ("model_checking", "6/C17",
+            "TLC computes, per language and form, the sum of per-position maxima of word lengths over the admissible index sets plus separators and compares it with POLYSEED_STR_SIZE read from the header under test (exact, finite); extremal and near-extremal witness seeds are encoded and decoded under ASan and the returned length, termination and round trip judged by TLC",
+            "code lists = golden lists (C07)", TV + " (exact finite maximisation)"),
+    "C18": ("model_checking", "6/C18",
+            "every dependency event carries the identity of the implementation that ran; TLC checks it is the one currently injected (three distinguishable sets, libc via --wrap exactly when the optional entry is NULL, forbidden sources never), rand once with 19 bytes which ARE the secret (all 152 unit-bit outputs), clock once; injection sequences with the caller's struct overwritten after injection",
+            "libc and forbidden sources observed by link-time wrapping", TV),
+    "C19": ("model_checking", "6/C19",
+            "the same scripts run against -fsigned-char and -funsigned-char builds (and assert-enabled variants); both traces are validated by TLC against the one byte-level specification",
+            "gcc -funsigned-char models the ARM/PowerPC ABI", TV + " on two compiler configurations"),
+    "C20": ("model_checking", "6/C20",
+            "PolyseedThreads.tla: all interleavings of the footprint model (3 threads x 2 calls): NoRace, SerialResults, ReadOnlyPhase; code: N threads on disjoint seeds with the library's writable data segments write-protected (any store to static data faults deterministically), ThreadSanitizer build, list of writable static symbols compared with the model's three objects, and every thread's transcript validated by TLC against the sequential specification",
+            "race freedom on the code is the observers' verdict on the schedules run; the model covers the design", TV + "; mprotect/TSan as observers"),
 }
 
 
@@ -38,7 +93,7 @@ def main():
                 "technique": tech,
             })
         else:
-            na.append({"property_id": pid, "reason": "check under construction in this round (not yet registered)"})
+            na.append({"property_id": pid, "reason": "check not registered"})
     m = {
         "version": 1,
         "setup_cmd": "./verif setup",
